@@ -70,6 +70,7 @@ func main() {
 	flag.Parse()
 
 	facts := Facts{Consts: map[string]string{}, Funcs: map[string]FuncFact{}}
+	miniDefs := map[string][]string{}
 	fset := token.NewFileSet()
 	imp := importer.ForCompiler(fset, "source", nil)
 	for _, p := range pkgs {
@@ -91,7 +92,8 @@ func main() {
 			for _, n := range names {
 				files = append(files, pkg.Files[n])
 			}
-			info := &types.Info{Defs: map[*ast.Ident]types.Object{}, Uses: map[*ast.Ident]types.Object{}, Selections: map[*ast.SelectorExpr]*types.Selection{}}
+			info := &types.Info{Defs: map[*ast.Ident]types.Object{}, Uses: map[*ast.Ident]types.Object{}, Selections: map[*ast.SelectorExpr]*types.Selection{},
+				Types: map[ast.Expr]types.TypeAndValue{}}
 			conf := types.Config{Importer: &repoImporter{repo: *repo, fset: fset, std: imp, cache: map[string]*types.Package{}}, Error: func(err error) {}}
 			tpkg, _ := conf.Check("github.com/lixianmin/got/"+p, fset, files, info)
 			if tpkg != nil {
@@ -103,6 +105,20 @@ func main() {
 						}
 					}
 				}
+			}
+			for _, tg := range miniTargets {
+				if tg.pkg != p {
+					continue
+				}
+				var found *ast.FuncDecl
+				for _, f := range files {
+					for _, d := range f.Decls {
+						if fd, ok := d.(*ast.FuncDecl); ok && fd.Recv == nil && fd.Name.Name == tg.fn && fd.Body != nil {
+							found = fd
+						}
+					}
+				}
+				miniDefs[p] = append(miniDefs[p], translateMini(tg, found, info))
 			}
 			for _, f := range files {
 				for _, d := range f.Decls {
@@ -139,6 +155,23 @@ func main() {
 		for _, p := range pkgs {
 			name := "Lits" + strings.ToUpper(p[:1]) + p[1:] + ".lean"
 			writeIfChanged(filepath.Join(*outLean, name), []byte(leanLits(facts, p)))
+		}
+		done := map[string]bool{}
+		for _, tg := range miniTargets {
+			if done[tg.pkg] {
+				continue
+			}
+			done[tg.pkg] = true
+			defs := miniDefs[tg.pkg]
+			if len(defs) == 0 { // package did not parse: keep the obligations failing rather than an old translation
+				for _, t2 := range miniTargets {
+					if t2.pkg == tg.pkg {
+						defs = append(defs, translateMini(t2, nil, nil))
+					}
+				}
+			}
+			name := "Ast" + strings.ToUpper(tg.pkg[:1]) + tg.pkg[1:] + ".lean"
+			writeIfChanged(filepath.Join(*outLean, name), []byte(leanAstFile(tg.pkg, defs)))
 		}
 	}
 	if len(facts.Errors) > 0 {
